@@ -41,9 +41,15 @@ def check(ctx, case):
 		lines.append(f'c07.enc {hx(b)} {_enc(kmers.kmer_to_index, arg)}')
 		lines.append(f'c07.encrc {hx(b)} {_enc(kmers.kmer_to_index_rc, arg)}')
 		lines.append(f'c07.rc {hx(b)} {hx(revcomp(b))}')
+		# three-way: definitions generated from the current .pyx text vs model vs compiled module
+		if len(b) <= 40:
+			lines.append(f'gen.enc {hx(b)} {_enc(kmers.kmer_to_index, arg)}')
+			lines.append(f'gen.encrc {hx(b)} {_enc(kmers.kmer_to_index_rc, arg)}')
+			lines.append(f'gen.rc {hx(b)} {hx(revcomp(b))}')
 	elif kind == 'index':
 		i, k = case['i'], case['k']
 		lines.append(f'c07.dec {i} {k} {hx(kmers.index_to_kmer(i, k))}')
+		lines.append(f'gen.dec {i} {k} {hx(kmers.index_to_kmer(i, k))}')
 	elif kind == 'dtype':
 		k = case['k']
 		dt = kmers.index_dtype(k)
